@@ -89,7 +89,7 @@ def run(pid, tier, replay=None):
 
     # 5. V: TLC validates everything the real code produced
     files = sorted(glob.glob(sc.path("g-*.ndjson")) + glob.glob(sc.path("r-*.ndjson")))
-    files = [f for f in files if os.path.getsize(f) > 0]
+    files = vlib.drop_partial_lines(files)
     results = vlib.validate_traces(os.path.join(specdir, mod + "Trace.tla"), os.path.join(specdir, mod + "Trace.cfg"),
                                    files, sc, timeout=3000, heap="3g")
     nev = 0
